@@ -14,6 +14,7 @@ class Fail:
         self.detail = detail
         self.extra = extra  # z3 formula describing the failing set (conjoined with the PC), or None
         self.known_key = known_key
+        self.known_region = None   # optional {known finding id: z3 formula}: the finding only covers counterexamples inside the formula
 
 
 def run(oid, *, width, zconsts, build, check, make_case, max_paths=400, query_ms=20000, known=(), validate=None,
@@ -82,9 +83,25 @@ def run(oid, *, width, zconsts, build, check, make_case, max_paths=400, query_ms
                 if k.get("key") in (None, "*") or k.get("key") == kkey:
                     kid = k["id"]
             if kid is not None:
-                if kid not in res["known_hits"]:
-                    res["known_hits"].append(kid)
-                continue
+                # a finding recorded with a REGION (formula over the inputs) covers only counterexamples inside it: a failing input
+                # outside the region is a different violation and is reported
+                region = (getattr(f, "known_region", None) or {}).get(kid)
+                outside = None
+                if region is not None:
+                    s3 = E.new_solver(path.pc, query_ms)
+                    if f.extra is not None:
+                        s3.add(f.extra)
+                    s3.add(z3.Not(region))
+                    q3 = E.check_sat(s3)
+                    if q3 == "sat":
+                        outside = s3.model()
+                    elif q3 == "unknown":
+                        res["inconclusive"].append("unknown: outside-known-region query")
+                if outside is None:
+                    if kid not in res["known_hits"]:
+                        res["known_hits"].append(kid)
+                    continue
+                s2 = s3
             m = s2.model()
             vals = E.model_dict(m, list(zconsts.values()))
             res["status"] = "violation"
